@@ -69,7 +69,12 @@ func c04Conn(rng *rand.Rand, names []string, tag string, nm int) *ConnScript {
 		if rng.Intn(3) == 0 {
 			c.Flags = c01Flags[rng.Intn(len(c01Flags))] // routing and the standard errors must not depend on the flags
 		}
-		switch rng.Intn(4) {
+		switch rng.Intn(5) {
+		case 3:
+			// the handler itself answers with one of the four standard errors, carrying a string that the routing errors of
+			// this set carry as well (member names of org.varlink.service near-misses, registered names, field names)
+			args := []string{"getinfo", "GetInfo", "GetInfo.", "", "M", "method", "interface", names[rng.Intn(len(names))], "a.b"}
+			c.Script = &CallScript{ID: id, Steps: []Step{{Op: "builtin", Name: []string{"InterfaceNotFound", "MethodNotFound", "MethodNotImplemented", "InvalidParameter"}[rng.Intn(4)], Arg: args[rng.Intn(len(args))]}}}
 		case 0:
 			c.Script = &CallScript{ID: id, Steps: []Step{{Op: "reply"}}}
 		case 1:
@@ -191,7 +196,7 @@ func replayC04(r *fw.Run, raw json.RawMessage) { replayRound(r, raw, "C04") }
 func init() {
 	fw.Register(&fw.Engine{
 		ID: "C04", Level: "exploration",
-		Rule: "a case = (set of 1..6 registered interface names drawn to be adversarial to each other: a.b / a.b.c / a.b.c.d / a.bc / A.b / a. / .a / a..b / near-misses of org.varlink.service / unicode / empty name; one connection of 10 (quick) or 20 (thorough) method strings: every registered name with .M, without method, with trailing/leading/doubled dots, with prefixes, suffixes, halves, case changes, one char more or less, unicode, NUL, 6000- and 20000-character names, org.varlink.service methods and near-misses; scripted / more / unscripted parameters), always followed by a GetInfo on the same connection (the connection must still be usable) and in a third of the cases by a frame that is not an object with a string method, followed by one more call that must never be dispatched. Oracle: the routing model written from the statement (split at the last '.', index <= 0 => InvalidParameter(method), org.varlink.service built in, exact table lookup, InterfaceNotFound otherwise): exactly the predicted reply per call, exactly the predicted dispatcher invocations (interface, method name, once), none for any other peer. distinct by hash of names+calls. Also: every third name set is registered in two steps on the same object (the later names are first called while unknown, then registered during a pause in serving, then called again); a third of the calls carry flag combinations; method strings with outer white space; frames without a method member right after a dispatched call; a registration attempt made while serving (refused) for names that are then called: InterfaceNotFound, no dispatch.",
+		Rule: "a case = (set of 1..6 registered interface names drawn to be adversarial to each other: a.b / a.b.c / a.b.c.d / a.bc / A.b / a. / .a / a..b / near-misses of org.varlink.service / unicode / empty name; one connection of 10 (quick) or 20 (thorough) method strings: every registered name with .M, without method, with trailing/leading/doubled dots, with prefixes, suffixes, halves, case changes, one char more or less, unicode, NUL, 6000- and 20000-character names, org.varlink.service methods and near-misses; scripted / more / unscripted parameters), always followed by a GetInfo on the same connection (the connection must still be usable) and in a third of the cases by a frame that is not an object with a string method, followed by one more call that must never be dispatched. Oracle: the routing model written from the statement (split at the last '.', index <= 0 => InvalidParameter(method), org.varlink.service built in, exact table lookup, InterfaceNotFound otherwise): exactly the predicted reply per call, exactly the predicted dispatcher invocations (interface, method name, once), none for any other peer. distinct by hash of names+calls. Also: every third name set is registered in two steps on the same object (the later names are first called while unknown, then registered during a pause in serving, then called again); a third of the calls carry flag combinations; method strings with outer white space; frames without a method member right after a dispatched call; a registration attempt made while serving (refused) for names that are then called: InterfaceNotFound, no dispatch; handlers that answer with a standard error carrying the same strings the routing errors carry.",
 		Assumptions: []string{"interface names are compared as exact byte strings"},
 		Run:         runC04, Replay: replayC04, CrashIsViolation: true, MinEvals: 100,
 		QuickTimeout: 10 * time.Minute, ThoroughTimeout: 40 * time.Minute,
